@@ -474,6 +474,8 @@ def lifecycle_check(prop, tier):
                 evs = hg.get(r["id"], [])
                 run.violation("C07 shared line on %s threads: a lifetime's verdict saw another lifetime's calls" % r["threads"],
                               {"round": r, "events": [e for e in evs if e["ev"] in ("Helper", "ChildExit")]})
+    if prop in ("C17", "C12", "C02"):
+        platform_part(run, prop, tier)
     if prop in ("C02", "C03", "C12"):
         placement_part(run, prop, tier)
     if prop == "C12":
@@ -934,6 +936,48 @@ def alloc_check(prop, tier):
                  "events": pero[sid][max(0, reached - 6):reached + 2]})
     windows_alloc_part(run, tier)
     return run.finish()
+
+
+def platform_part(run, prop, tier):
+    """the OS-facing layer on the platforms this host is not: common.rs + emitters compiled for (os, arch) pairs against
+    shims of the OS items, driven through the PatchTrait entry points; Trace_Flush under `prop`"""
+    scen = []
+    for variant in ("linux-x64", "linux-a64", "windows-x64", "windows-a64", "macos-a64", "macos-x64"):
+        offs = (64, 4090) if tier == "quick" else (0, 64, 2048, 4084, 4090, 4093)
+        for off in offs:
+            for installs in (["jump"], ["bool1"], ["jump", "bool0"], ["bool1", "jump", "jump"]):
+                for fake in ((0x7f1234567000, 0) if variant.endswith("x64") else (0x7f1234567000,)):
+                    # fake = 0: a replacement close to the trampoline (x86-64 short form), taken inside the arena
+                    scen.append({"id": len(scen) + 1, "variant": variant, "off": off, "installs": installs, "fake": fake, "near_fake": fake == 0})
+    groups, order, _ = vlib.run_harness("platsim", scen, "platsim_" + prop, timeout=3000)
+    cfgp = tlc.make_cfg("Trace_Flush", {"Props": '{"%s", "ALL"}' % prop}, "Trace_Flush_" + prop)
+    tv = tlc.validate_traces("Trace_Flush", cfgp, [(sc["id"], groups.get(sc["id"], [])) for sc in scen], WORK, "trace_flush_" + prop, timeout=3000)
+    run.traces += len(tv["accepted"])
+    run.states += tv["states"]
+    run.transitions += tv["transitions"]
+    hows = set()
+    for sc in scen:
+        evs = groups.get(sc["id"], [])
+        hows |= set(e["how"] for e in evs if e["ev"] == "PFlush")
+        run.note_case("platform %s off=%s installs=%s fake=%s" % (sc["variant"], sc["off"], "+".join(sc["installs"]), "near" if sc["near_fake"] else "far"))
+        if sc["id"] not in tv["accepted"]:
+            reached, total = tv["progress"].get(sc["id"], (0, -1))
+            fe = evs[reached] if reached < len(evs) else None
+            # name what is left unflushed: the entry (arena page 0/1) or a trampoline (pages 2..)
+            dirty = set()
+            for e in evs[:reached]:
+                if e["ev"] == "PWrite":
+                    dirty |= set(range(e["off"], e["off"] + e["len"]))
+                elif e["ev"] == "PFlush" and e["in_arena"]:
+                    dirty -= set(range(e["off"], e["off"] + e["len"]))
+            what = "none" if not dirty else ("trampoline" if min(dirty) >= 8192 else "entry")
+            run.violation("%s platform=%s at=%s unflushed=%s" % (prop, sc["variant"], (fe or {}).get("ev"), what),
+                          {"scenario": sc, "trace_rejected_at": reached, "first_unmatched_event": fe,
+                           "unflushed_offsets": sorted(dirty)[:40], "events": evs[max(0, reached - 14):reached + 1]})
+    need = {"__clear_cache", "FlushInstructionCache", "sys_icache_invalidate"}
+    if not need <= hows:
+        raise ToolError("vacuity guard: platform primitives seen: %s" % sorted(hows))
+    run.extra["platform_variants"] = {"runs": len(scen), "accepted": len(tv["accepted"]), "primitives": sorted(hows)}
 
 
 def windows_alloc_part(run, tier):
